@@ -103,7 +103,9 @@ def run(module: str, cfg: str, *, workers: int | str = "auto", timeout: int = 60
             f.write(cfg)
     else:
         cfg_path = cfg if os.path.isabs(cfg) else os.path.join(specdir, cfg)
-    cmd = ["java", "-XX:+UseParallelGC", f"-Xmx{heap}", f"-DTLA-Library={env.SPEC}{os.pathsep}{os.path.join(env.SPEC, 'proofs')}", "-cp", JAVA_CP, "tlc2.TLC",
+    jtmp = os.path.join(work, "jtmp")          # TLC unpacks its standard modules into java.io.tmpdir on every run and leaves them there: keep that inside the
+    os.makedirs(jtmp, exist_ok=True)           # per-run directory, which is removed below (otherwise /tmp collects tens of thousands of tlc-* directories)
+    cmd = ["java", "-XX:+UseParallelGC", f"-Xmx{heap}", f"-Djava.io.tmpdir={jtmp}", f"-DTLA-Library={env.SPEC}{os.pathsep}{os.path.join(env.SPEC, 'proofs')}", "-cp", JAVA_CP, "tlc2.TLC",
            "-workers", str(workers), "-metadir", os.path.join(work, "meta"), "-noGenerateSpecTE",
            "-config", cfg_path]
     if coverage:
